@@ -201,8 +201,13 @@ def generate(run_index, seed, tier):
             decoys.append({"path": other, "content": {"trial_type": {"HED": {"a": "Redd", "b": "Redd"}}}})
     seen = set()
     sidecars = [s for s in sidecars if not (s["path"] in seen or seen.add(s["path"]))]
+    cli_opts = []
+    if g.chance(0.3):
+        cli_opts += ["-o", "<scratch>/cli-output.txt"]
+    if g.chance(0.3):
+        cli_opts += ["-f", g.pick(["json", "json_pp", "text"])]
     return {"files": files, "sidecars": sidecars, "decoys": decoys, "perms": [g.randrange(1 << 30) for _ in range(g.randint(1, 3))],
-            "warnings": g.chance(0.5)}
+            "warnings": g.chance(0.5), "cli_opts": cli_opts}
 
 
 def shrink(sc):
@@ -440,7 +445,8 @@ def execute(sc, script=None):
     if not violations:
         sim = Sim(Decider(0), max_steps=200000)
         fs = SimFS(sim, [root], chunk=1 << 20, copy_bufsize=1 << 20, yield_stat=False)
-        argv = ["hed_validator", root] + (["--check-for-warnings"] if warn else [])
+        argv = ["hed_validator", root] + (["--check-for-warnings"] if warn else []) + list(sc.get("cli_opts", []))
+        argv = [a.replace("<scratch>", W["base"]) for a in argv]
 
         def cli():
             saved = sys.argv
@@ -457,9 +463,13 @@ def execute(sc, script=None):
         if expected_nonzero:
             probe("cli_nonzero_expected")
         if p.state != "done":
-            viol("cli-exit-status", "hed_validator.main raised %s: %s" % (type(p.exc).__name__, str(p.exc)[:300]), "cli-raises-%s" % type(p.exc).__name__)
+            # an escaping exception ends the real process with a non-zero status
+            probe("cli_raised_" + type(p.exc).__name__)
+            if not expected_nonzero:
+                viol("cli-exit-status", "hed_validator.main %s raised %s: %s although the dataset has no issues"
+                     % (argv[2:], type(p.exc).__name__, str(p.exc)[:300]), "cli-raises-%s-without-issues" % type(p.exc).__name__)
         elif bool(p.result) != expected_nonzero:
-            viol("cli-exit-status", "hed_validator.main returned %r but the dataset has %d issue(s)" % (p.result, len(want_for(warn))),
+            viol("cli-exit-status", "hed_validator.main %s returned %r but the dataset has %d issue(s)" % (argv[2:], p.result, len(want_for(warn))),
                  "cli-exit-%s-with-%s" % ("zero" if not p.result else "nonzero", "issues" if expected_nonzero else "no-issues"))
         trace.append(["cli", p.result if p.state == "done" else p.state])
     return _result(sc, violations, probes, trace, nontrivial)
